@@ -2,7 +2,7 @@
 import ast
 
 from .. import pattern as PT
-from ..loader import Inconclusive, AnchorMissing, where, norm
+from ..loader import Inconclusive, AnchorMissing, where, norm, dotted_of
 from ..sym import Sym, run_function, T, fmt, walk, atoms, is_const, mentions
 from ..pred import npred, conj, pred_fmt
 
@@ -342,6 +342,96 @@ def zeros_of(t, shapes=(), like=(), allow_empty=False):
     if t[1] == "numpy.zeros_like" and len(t[2]) == 1:
         return t[2][0] in like
     return False
+
+
+NODE_FUNCS = {"pa", "ch", "neighbors", "adj", "na", "ancestors", "descendants", "desc", "chain_component"}
+NODE_PARAMS = {"S", "A_nodes", "B_nodes", "I", "path", "visited", "to_visit", "targets"}
+
+
+def node_label_truthiness(rep, prog, qnames, rule="TRUTHY.node-label", sets_as_params=()):
+    """any(...) / all(...) applied to node *labels* (a set / list of nodes, or a comprehension that yields its own loop
+    variable over one): node 0 is falsy, so the answer depends on how the nodes happen to be numbered."""
+    n = 0
+    for q in qnames:
+        f = prog.funcs.get(q)
+        if f is None:
+            continue
+        nodesets = set(NODE_PARAMS) | set(sets_as_params)
+
+        def holds_nodes(e):
+            if isinstance(e, ast.Name):
+                return e.id in nodesets
+            if isinstance(e, ast.Call):
+                fn = (dotted_of(e.func) or "").split(".")[-1]
+                if fn in NODE_FUNCS:
+                    return True
+                if fn in ("set", "list", "sorted", "tuple", "frozenset") and len(e.args) == 1:
+                    return holds_nodes(e.args[0])
+                return False
+            if isinstance(e, ast.BinOp) and isinstance(e.op, (ast.BitAnd, ast.BitOr, ast.Sub, ast.BitXor)):
+                return holds_nodes(e.left) or holds_nodes(e.right)
+            if isinstance(e, ast.Set):
+                return False
+            return False
+        for _ in range(3):
+            for node in ast.walk(f.node):
+                if isinstance(node, ast.Assign) and len(node.targets) == 1 and isinstance(node.targets[0], ast.Name) and holds_nodes(node.value):
+                    nodesets.add(node.targets[0].id)
+        hit = None
+        for node in ast.walk(f.node):
+            if isinstance(node, ast.Call) and isinstance(node.func, ast.Name) and node.func.id in ("any", "all") and len(node.args) == 1:
+                n += 1
+                a = node.args[0]
+                if isinstance(a, (ast.GeneratorExp, ast.ListComp, ast.SetComp)):
+                    tgt = a.generators[0].target
+                    if isinstance(a.elt, ast.Name) and isinstance(tgt, ast.Name) and a.elt.id == tgt.id and holds_nodes(a.generators[0].iter):
+                        hit = node
+                elif holds_nodes(a):
+                    hit = node
+        if hit is not None:
+            rep.bad(rule, fwhere(f, hit), "%s() takes the truth value of node labels (`%s`): node 0 is falsy, so the result depends on the numbering of the nodes" % (
+                hit.func.id, norm(hit)[:60]))
+    if not rep.count(rule, "VIOLATION"):
+        rep.ok(rule, {"file": "sempler/utils.py", "line": 0, "function": "(%d functions)" % len(qnames), "construct": "any()/all()"},
+               "%d any()/all() calls inspected; none takes the truth value of a node label" % n)
+
+
+def isin_over_sets(rep, prog, qnames, rule="API.isin-set"):
+    """np.isin(x, s) / np.in1d(x, s) with a Python *set* s: numpy wraps the set in a 0-d object array and every membership test is
+    False (the documented trap: "pass list(s)").  Reported when the second argument is a set literal, set(...), a set
+    comprehension, a set operation or one of the library's set-valued node functions."""
+    n = 0
+    for q in qnames:
+        f = prog.funcs.get(q)
+        if f is None:
+            continue
+        setvars = set()
+
+        def is_set(e):
+            if isinstance(e, (ast.Set, ast.SetComp)):
+                return True
+            if isinstance(e, ast.Name):
+                return e.id in setvars
+            if isinstance(e, ast.Call):
+                fn = (dotted_of(e.func) or "").split(".")[-1]
+                return fn in NODE_FUNCS or fn in ("set", "frozenset")
+            if isinstance(e, ast.BinOp) and isinstance(e.op, (ast.BitAnd, ast.BitOr, ast.Sub, ast.BitXor)):
+                return is_set(e.left) or is_set(e.right)
+            return False
+        for _ in range(3):
+            for node in ast.walk(f.node):
+                if isinstance(node, ast.Assign) and len(node.targets) == 1 and isinstance(node.targets[0], ast.Name) and is_set(node.value):
+                    setvars.add(node.targets[0].id)
+        for node in ast.walk(f.node):
+            if isinstance(node, ast.Call) and (dotted_of(node.func) or "").split(".")[-1] in ("isin", "in1d") and (dotted_of(node.func) or "").split(".")[0] in ("np", "numpy"):
+                n += 1
+                second = node.args[1] if len(node.args) > 1 else next((k.value for k in node.keywords if k.arg in ("test_elements", "ar2")), None)
+                if second is not None and is_set(second):
+                    rep.bad(rule, fwhere(f, node), "np.%s is given the Python set `%s`: numpy treats a set as one 0-d object, every element tests False "
+                            "(convert with list(...) first)" % ((dotted_of(node.func) or "").split(".")[-1], norm(second)[:40]))
+    if not rep.count(rule, "VIOLATION"):
+        rep.ok(rule, {"file": "sempler/utils.py", "line": 0, "function": "(%d functions)" % len(qnames), "construct": "np.isin / np.in1d"},
+               "%d np.isin / np.in1d calls inspected; none is handed a Python set" % n)
 
 
 def empty_index_arrays(rep, prog, qnames, rule):
